@@ -3,11 +3,11 @@ NOCONV = [x for x in SAFETY if x != "--conversion-check"]
 IO = ["fwrite:verif_fwrite", "read:verif_read", "lseek:verif_lseek", "mmap:verif_mmap", "close:verif_close", "exit:verif_exit", "malloc:verif_malloc_g"]
 JOBS = [
   Job("c19.file.layout", "c19_file.c", "h_file_layout", replace_calls=IO,
-      cbmc=["--unwind", "47", "--unwinding-assertions"], safety=NOCONV, fuc=["dr_pi_dag_dump", "dr_read_dag"], timeout=200,
+      cbmc=["--unwind", "47", "--unwinding-assertions", "--sat-solver", "cadical"], safety=NOCONV, fuc=["dr_pi_dag_dump", "dr_read_dag"], timeout=200,
       note="complete up to the stated file bound"),
   Job("c19.strtab.flatten.bounded", "c19_file.c", "h_strtab_flatten", kind="bounded",
       replace_calls=["malloc:verif_malloc_st", "strlen:verif_strlen", "strcpy:verif_strcpy", "exit:verif_exit"],
-      cbmc=["--unwind", "10", "--unwinding-assertions"], fuc=["dr_string_table_flatten", "dr_pi_dag_set_string_table"], timeout=200,
+      cbmc=["--unwind", "10", "--unwinding-assertions", "--sat-solver", "cadical"], fuc=["dr_string_table_flatten", "dr_pi_dag_set_string_table"], timeout=200,
       note="bounded: at most 8 strings"),
 ]
 META = {"level": "other", "assumptions": []}
